@@ -348,12 +348,14 @@ theorem orphan_deleted_phase_touches_nothing (cfg : Cfg) (setKind ns name : Stri
   have htr : (if mem.finCached then (if mem.finOrphan then (s.w, TRes.done) else teardownPhase cfg (phaseOwner mem setKind ns) mem.objs s.w) else (s.w, TRes.done)) = (s.w, TRes.done) := by
     simp [horph]
   simp only [reconcilePhaseCtl, hget, hdel, ↓reduceIte, htr]
-  cases hf : setPhaseFinalizer s.w mem false with
+  -- (`Free` drops the phase object's cache registrations: no write, the store is untouched)
+  cases hf : setPhaseFinalizer (s.w.free (phaseOwner mem setKind ns).wref) mem false with
   | mk w' r =>
-    have h1 := hsf s.w mem false
+    have h1 := hsf (s.w.free (phaseOwner mem setKind ns).wref) mem false
     rw [hf] at h1
     simp only at h1
-    cases r <;> simp [haps, hus, h1.1, h1.2]
+    have h2 : w'.events = s.w.events ∧ w'.store.objs = s.w.store.objs := h1
+    cases r <;> simp [haps, hus, h2.1, h2.2]
 
 /-- Non-vacuity: a phase object re-created after a third party deleted it is reported under its new
 uid (`SetRemotePhases` folds the collected references into the recorded ones): the uid recorded before is gone. -/
